@@ -116,7 +116,7 @@ func alphabetSweep[T comparable, P Object[T]](s *OS[T, P], states []spec.Assignm
 			got, gerr := P(&o0).Get(abv)
 			trans++
 			if mi < 0 {
-				if gerr == nil || got != "" {
+				if gerr == nil {
 					s.reportGet(st, abv, fmt.Sprintf("Get returned (%q, %v)", got, gerr))
 				} else if a2, ok := s.I.IsBadAbv(gerr); checkErrKinds && (!ok || a2 != abv) {
 					s.reportGet(st, abv, fmt.Sprintf("%T %v", gerr, gerr))
@@ -166,19 +166,20 @@ func c09States[T comparable, P Object[T]](s *OS[T, P]) []spec.Assignment {
 	return st
 }
 
-func getSetAlphabet(r *Report) {
+// getSetAlphabet: errKinds additionally requires the documented error values (C18); C09 only requires a refusal.
+func getSetAlphabet(r *Report, errKinds bool) {
 	s20, s30, s31, s40 := NewOS(I20, r), NewOS(I30, r), NewOS(I31, r), NewOS(I40, r)
-	alphabetSweep(s20, c09States(s20), true)
-	alphabetSweep(s30, c09States(s30), true)
-	alphabetSweep(s31, c09States(s31), true)
-	alphabetSweep(s40, c09States(s40), true)
+	alphabetSweep(s20, c09States(s20), errKinds)
+	alphabetSweep(s30, c09States(s30), errKinds)
+	alphabetSweep(s31, c09States(s31), errKinds)
+	alphabetSweep(s40, c09States(s40), errKinds)
 }
 
 // CheckC09 — only specification metrics/values are accepted or produced.
 func CheckC09(r *Report) {
 	plan := objPlan(r.Tier, PredWellFormed|PredIllegal)
 	r.Rule = "E2 objspace: (1) the full abbreviation x value alphabet (all abbreviations/values of all versions, case variants, every string at byte-edit distance 1 from an abbreviation/value of the version over a 45-byte alphabet, empty, blank, NUL, 1 KiB) offered to Get and Set on 7 states per version: accepted iff table member (case-sensitive), refusal leaves the object ==; (2) on every state of the E2 sweeps: every Get legal and non-empty, Vector() equal to the reference canonical form (hence grammatical), every scoring method returns without panic and without mutating the receiver; distinct = distinct states + distinct (abbreviation,value) pairs"
-	getSetAlphabet(r)
+	getSetAlphabet(r, false)
 	pairs := r.Transitions.Load()
 	runAllObj(r, plan, 2)
 	r.Bound = "alphabets: see *_alphabet sizes; " + boundText(plan)
